@@ -35,11 +35,11 @@ def _label_lookup(t, labels, idx):
 
 
 def run(ctx):
-    rule_stat(ctx, 'C14.R1')
-    rule_project(ctx, 'C14.R2')
-    rule_phase_align(ctx, 'C14.R3')
-    rule_stat_caller(ctx, 'C14.R5')
-    rule_bin_cover(ctx, 'C14.R4')
+    ctx.rule(rule_stat, 'C14.R1')
+    ctx.rule(rule_project, 'C14.R2')
+    ctx.rule(rule_phase_align, 'C14.R3')
+    ctx.rule(rule_stat_caller, 'C14.R5')
+    ctx.rule(rule_bin_cover, 'C14.R4')
     l1.rule_lib_attrs(ctx, 'L1', ['emd.cycles.phase_align', 'emd.cycles.bin_by_phase', 'emd.cycles.get_cycle_stat'],
                       'cycle statistics')
 
